@@ -171,4 +171,3 @@ func sortedKV(m map[string]string) []string {
 	sort.Strings(out)
 	return out
 }
-
